@@ -97,6 +97,7 @@ type refReading struct {
 	tokenJSON  bool            // token answer: 200 and valid JSON
 	idSegsLt2  bool            // google: token answer is 200 + JSON null/object and no id_token string has 2+ segments
 	accessSeen bool
+	idTokNoDot bool // some non-empty id_token string has no '.'
 }
 
 func refRead(prov string, tok ans, ui *ans, access string) refReading {
@@ -109,6 +110,11 @@ func refRead(prov string, tok ans, ui *ans, access string) refReading {
 		return rr
 	}
 	rr.tokenJSON = true
+	for _, idt := range tv.strs("id_token") {
+		if idt != "" && !strings.Contains(idt, ".") {
+			rr.idTokNoDot = true
+		}
+	}
 	needVerified := prov != "cognito"
 	collect := func(v objView) {
 		if !v.object || (needVerified && !v.hasTrue("email_verified")) {
